@@ -84,6 +84,21 @@ PROPS = {
         ],
         "gen": [],
     },
+    "C18": {
+        "level_text": "Lean 4 theorems over a labelled transition system of the authority lock protocol (one transition = one file-system call of try_acquire / stale cleanup / corrupt cleanup / Drop, any number of contenders, crashes and releases at any point, every leftover state of a crashed authority): the full mutual-exclusion statement is proved FALSE of the protocol as implemented (witness schedule, by decide) — the cleanup functions re-read/check lock.json and rename it in two separate calls — and proved TRUE under every schedule when those two calls are one step (mutex_partial, never_steals_partial, recovery removes only files of dead processes); recovery from every leftover state is proved for the protocol as implemented. Tied to the code by schedule correspondence: real contender threads running the real functions are single-stepped through yield points (cfg rip_verif) between the file-system calls, and after every step lock/meta state, each contender's position and the number of authorities must equal the Lean LTS's; the witness schedule is replayed on the real functions on every run. The two-authorities executions are a recorded known finding (signatures name the window), not repaired.",
+        "level_note": "Lean kernel; process liveness kill(pid,0) is an oracle of the model (pid reuse excluded); contenders are threads of one process in the correspondence run (crash transitions exist only in the model); the 1 s grace period before corrupt-lock cleanup is modelled as 'the creator is not about to finish writing'; the HTTP ping of the recovery loops is not modelled (endpoint unreachable).",
+        "technique": "Lean 4 proof (inductive invariant over all interleavings; decide-checked counterexample for the full statement) + controlled-schedule correspondence on the real functions",
+        "design_ref": "§5 C18",
+        "trusted_base": COMMON_TB + [
+            "modelled, not verified: create_new / rename / remove_file are atomic; a write goes to the file the handle was opened on",
+            "hooks: rip_kernel::verif::point calls between the file-system calls of local_authority.rs; controlled scheduler of the harness (one worker runs at a time)",
+        ],
+        "assumptions": [
+            "no PID reuse; no preemption inside a single file-system call",
+            "known finding: two authorities through the re-read/rename gap of stale cleanup and the check/rename gap of corrupt cleanup (known_findings.json)",
+        ],
+        "gen": [],
+    },
     "C20": {
         "level_text": "Lean 4 theorems over an executable model of FrameStore and the TuiState::update fold: frame/output/preview bounds for every frame sequence and capacity, truncation cut on a char boundary, lookup-by-seq sound for every store state and complete on consecutive stores; the model is tied to the code by a differential correspondence run (same frame sequences through rip-tui and the compiled model) plus implementation oracles.",
         "level_note": "Lean kernel; axioms propext/Quot.sound only; model written by hand and validated by the correspondence check; BTreeMap/VecDeque/String modelled as lists; artifact-id extraction, job/context summaries and rendering not modelled.",
